@@ -62,12 +62,16 @@ def make_items(cx, spec, nprog, nenv, streams=('corpus', 'fragment', 'shapes')):
             src, tags = gen.fragment(cx.seed, i, shapes=True)
             items.append({'name': f'shapes/{cx.seed}/{i}', 'src': src, 'nenv': nenv, 'seed': cx.seed, 'stream': 'shapes', 'tags': tags})
     if 'direct' in streams:
-        nd = gen.N_DIRECT if not cx.quick() else 96
+        nd = gen.N_DIRECT if not cx.quick() else 160
         rng = random.Random(f"direct/{cx.seed}")
         idxs = list(range(gen.N_DIRECT)); rng.shuffle(idxs)
         for i in idxs[:nd]:
             src, tags = gen.direct(cx.seed, i)
             items.append({'name': f'direct/{cx.seed}/{i}', 'src': src, 'nenv': max(40, nenv // 2), 'seed': cx.seed, 'stream': 'direct'})
+    if 'callfam' in streams:
+        for i in range(gen.N_CALLFAM):
+            src, tags = gen.callfam(cx.seed, i)
+            items.append({'name': f'callfam/{cx.seed}/{i}', 'src': src, 'nenv': max(30, nenv // 3), 'seed': cx.seed, 'stream': 'callfam'})
     if 'straight' in streams:
         for i in range(nprog * 3):
             items.append({'name': f'straight/{cx.seed}/{i}', 'src': gen.straightline(cx.seed, i), 'nenv': 0, 'seed': cx.seed, 'stream': 'straight'})
@@ -150,7 +154,7 @@ def semantic_check(pid):
         if replay is not None:
             return do_replay(cx, pid, spec, replay)
         nprog, nenv = volumes(cx, 90, 100)
-        streams = ('corpus', 'fragment', 'shapes', 'direct') + (('layout',) if pid in ('C04', 'C05') else ()) + (('straight',) if pid == 'C11' else ())
+        streams = ('corpus', 'fragment', 'shapes', 'direct', 'callfam') + (('layout',) if pid in ('C04', 'C05') else ()) + (('straight',) if pid == 'C11' else ())
         items = make_items(cx, spec, nprog, nenv, streams)
         results = engine.run_items(items)
         src_of = {it['name']: it['src'] for it in items}
